@@ -187,6 +187,18 @@ theorem collapse_of_nonzero : ∀ (es : List Ext), nElems es ≠ 0 → collapse 
     have h2 : nElems es ≠ 0 := fun hz => hn (by rw [hz]; simp)
     simp only [collapse, hn, if_false, ih h2]
 
+/-- move-assign a freshly built temporary and destroy the (emptied) temporary: the temporary's value, only the own block released -/
+theorem viaTemp_outcome {h h1 : Heap α} {self tmp : Arr} {val : AbsArr α} (hv : Valid h self)
+    (ho : Outcome h h1 (fun _ => False) tmp val) (hdim : tmp.dim ≠ 0) :
+    Outcome h (dtor (moveAssign h1 self tmp).1 (moveAssign h1 self tmp).2.2) (ownBlock self) (moveAssign h1 self tmp).2.1 val := by
+  have hd : dtor (moveAssign h1 self tmp).1 (moveAssign h1 self tmp).2.2 = deallocate h1 self := by
+    simp only [moveAssign, clear, dtor]
+    unfold deallocate
+    have : (⟨tmp.base, emptyLay tmp.dim⟩ : Arr).numElements = 0 := emptyLay_numElements hdim
+    simp [this]
+  rw [hd]
+  exact outcome_then_dealloc hv ho
+
 /-- construct a temporary from the view, move-assign it, destroy the (emptied) temporary -/
 theorem viaTemporary_outcome {h : Heap α} {self : Arr} (hv : Valid h self) (sb : Option BlockId) (scs : List (Cell α))
     (v : View) (hwf : v.lay.WF) (hne : v.lay ≠ [])
@@ -202,19 +214,12 @@ theorem viaTemporary_outcome {h : Heap α} {self : Arr} (hv : Valid h self) (sb 
     have : v.exts = [] := List.eq_nil_of_length_eq_zero e
     simp only [View.exts, Layout.exts] at this
     exact List.map_eq_nil_iff.mp this
-  have hd : dtor (moveAssign (viewCtor h sb v).1 self (viewCtor h sb v).2).1 (moveAssign (viewCtor h sb v).1 self (viewCtor h sb v).2).2.2
-      = deallocate (viewCtor h sb v).1 self := by
-    simp only [moveAssign, clear, dtor]
-    unfold deallocate
-    have : (⟨(viewCtor h sb v).2.base, emptyLay (viewCtor h sb v).2.dim⟩ : Arr).numElements = 0 := emptyLay_numElements hdim
-    simp [this]
-  rw [hd]
-  exact outcome_then_dealloc hv ho
+  exact viaTemp_outcome hv ho hdim
 
 /-- **`A = view`, `array::operator=(const_subarray const&)`** over any prior state of `A` -/
 theorem viewAssign_outcome {h : Heap α} {self : Arr} (hv : Valid h self) (hD : self.dim ≠ 0) (sb : Option BlockId) (scs : List (Cell α))
     (v : View) (hwf : v.lay.WF) (hne : v.lay ≠ [])
-    (hsrc : nElems v.exts ≠ 0 → ∃ s, sb = some s ∧ Live h s scs ∧ self.base ≠ some s)
+    (hsrc : nElems v.exts ≠ 0 → ∃ s, sb = some s ∧ Live h s scs ∧ (self.numElements ≠ 0 → self.base ≠ some s))
     (hin : ∀ idx ∈ boxIndices v.exts, 0 ≤ v.addr idx ∧ (v.addr idx).toNat < scs.length) :
     Outcome h (viewAssign h self sb v).1 (ownBlock self) (viewAssign h self sb v).2 ⟨collapse v.exts, viewCells scs v⟩ := by
   unfold viewAssign
@@ -223,14 +228,16 @@ theorem viewAssign_outcome {h : Heap α} {self : Arr} (hv : Valid h self) (hD : 
     have hex : self.exts = v.exts := eqv_normal _ _ hv.exts_normal (wf_exts_normal hwf) he
     have hc : collapse v.exts = self.exts := by rw [← hex]; exact hv.exts_fix
     rw [hc]
-    exact assignInPlace_outcome hv hD sb scs v hwf hex hsrc hin
+    exact assignInPlace_outcome hv hD sb scs v hwf hex (fun hn => by
+      obtain ⟨s, e, hl, hb⟩ := hsrc hn
+      exact ⟨s, e, hl, hb (by rw [← hv.nElems_exts, hex]; exact hn)⟩) hin
   · simp only [he, Bool.false_eq_true, if_false]
     exact viaTemporary_outcome hv sb scs v hwf hne (fun hn => by obtain ⟨s, e, hl, _⟩ := hsrc hn; exact ⟨s, e, hl⟩) hin
 
 /-- **`A = view`, `array::operator=(Range&&)`** (what a `subarray` argument selects), with its reshape shortcut -/
 theorem rangeAssign_outcome {h : Heap α} {self : Arr} (hv : Valid h self) (hD : self.dim ≠ 0) (sb : Option BlockId) (scs : List (Cell α))
     (v : View) (hwf : v.lay.WF) (hne : v.lay ≠ []) (hdim : v.exts.length = self.dim)
-    (hsrc : nElems v.exts ≠ 0 → ∃ s, sb = some s ∧ Live h s scs ∧ self.base ≠ some s)
+    (hsrc : nElems v.exts ≠ 0 → ∃ s, sb = some s ∧ Live h s scs ∧ (self.numElements ≠ 0 → self.base ≠ some s))
     (hin : ∀ idx ∈ boxIndices v.exts, 0 ≤ v.addr idx ∧ (v.addr idx).toNat < scs.length) :
     Outcome h (rangeAssign h self sb v).1 (ownBlock self) (rangeAssign h self sb v).2 ⟨collapse v.exts, viewCells scs v⟩ := by
   unfold rangeAssign
@@ -240,7 +247,9 @@ theorem rangeAssign_outcome {h : Heap α} {self : Arr} (hv : Valid h self) (hD :
     have hex : self.exts = v.exts := eqv_normal _ _ hv.exts_normal (wf_exts_normal hwf) he
     have hc : collapse v.exts = self.exts := by rw [← hex]; exact hv.exts_fix
     rw [hc]
-    exact assignInPlace_outcome hv hD sb scs v hwf hex hsrc hin
+    exact assignInPlace_outcome hv hD sb scs v hwf hex (fun hn => by
+      obtain ⟨s, e, hl, hb⟩ := hsrc hn
+      exact ⟨s, e, hl, hb (by rw [← hv.nElems_exts, hex]; exact hn)⟩) hin
   · simp only [he, Bool.false_eq_true, if_false]
     by_cases hcnt : self.numElements = Exts.numElements v.exts
     · simp only [hcnt, if_true]
@@ -268,13 +277,122 @@ theorem rangeAssign_outcome {h : Heap α} {self : Arr} (hv : Valid h self) (hD :
           rw [hs']; show (Layout.ofExts v.exts).length ≠ 0; rw [ofExts_length, hdim]; exact hD
         have hv' : Valid h (reshape h self v.exts).2 := by have := ho.valid; rw [e1] at this; exact this
         have := assignInPlace_outcome hv' hD' sb scs v hwf hex'
-          (fun hn => by obtain ⟨s, e, hl, hb⟩ := hsrc hn; exact ⟨s, e, hl, by rw [e2]; exact hb⟩) hin
+          (fun hn => by obtain ⟨s, e, hl, hb⟩ := hsrc hn; exact ⟨s, e, hl, by rw [e2]; exact hb (by rw [← hn']; exact hz)⟩) hin
         have hval : (⟨(reshape h self v.exts).2.exts, viewCells scs v⟩ : AbsArr α) = ⟨collapse v.exts, viewCells scs v⟩ := by
           rw [hex', collapse_of_nonzero _ hnv]
         rw [hval] at this
         exact this.mono hown
     · simp only [hcnt, if_false]
       exact viaTemporary_outcome hv sb scs v hwf hne (fun hn => by obtain ⟨s, e, hl, _⟩ := hsrc hn; exact ⟨s, e, hl⟩) hin
+
+/-- **assignment from an array of another element type** (`operator=(multi::array<TT, D> const&)`), all three branches: same extensions
+    (copy in place), same element count (reshape, then copy in place), otherwise (convert into a temporary, move-assign) -/
+theorem convAssign_outcome {h : Heap α} {self other : Arr} (hvs : Valid h self) (hvo : Valid h other) (hD : self.dim ≠ 0)
+    (hdim : other.dim = self.dim)
+    (hsep : self.numElements ≠ 0 → other.numElements ≠ 0 → self.base ≠ other.base) :
+    Outcome h (convAssign h self other).1 (ownBlock self) (convAssign h self other).2 (absArr h other) := by
+  unfold convAssign
+  by_cases he : Exts.eqv self.exts other.exts = true
+  · have := copyAssign_outcome hvs hvo hD hsep
+    unfold copyAssign at this
+    simp only [he, if_true] at this ⊢
+    exact this
+  · simp only [he, Bool.false_eq_true, if_false]
+    by_cases hc : self.numElements = Exts.numElements other.exts
+    · simp only [hc, if_true]
+      have hc' : nElems other.exts = self.numElements := by rw [hc, numElements_eq_nElems]
+      obtain ⟨ho, e1, e2⟩ := reshape_outcome hvs hvo.exts_ok hc'
+      have hs' : (reshape h self other.exts).2 = ⟨self.base, Layout.ofExts other.exts⟩ := rfl
+      have hv' : Valid h (reshape h self other.exts).2 := by have := ho.valid; rw [e1] at this; exact this
+      have hex' : (reshape h self other.exts).2.exts = other.exts := by
+        rw [hs']; show (Layout.ofExts other.exts).exts = _; exact hvo.rebuild.1
+      have hn' : (reshape h self other.exts).2.numElements = self.numElements := by
+        rw [hs']; show (Layout.ofExts other.exts).numElements = _; rw [hvo.rebuild.2, ← hvo.nElems_exts, hc']
+      have hD' : (reshape h self other.exts).2.dim ≠ 0 := by
+        rw [hs']; show (Layout.ofExts other.exts).length ≠ 0; rw [ofExts_length, arr_exts_length, hdim]; exact hD
+      have := copyAssign_outcome hv' hvo hD' (fun hna hnb => by rw [e2]; exact hsep (by rw [← hn']; exact hna) hnb)
+      unfold copyAssign at this
+      have heq : Exts.eqv (reshape h self other.exts).2.exts other.exts = true := by rw [hex']; exact eqv_refl _
+      simp only [heq, if_true] at this
+      rw [e1]
+      exact this.mono (fun b hb => ⟨by rw [← hn']; exact hb.1, by rw [← e2]; exact hb.2⟩)
+    · simp only [hc, if_false]
+      have ho := copyCtor_outcome h hvo
+      have hdim' : (copyCtor h other).2.dim ≠ 0 := by
+        show (Layout.ofExts other.exts).length ≠ 0; rw [ofExts_length, arr_exts_length, hdim]; exact hD
+      exact viaTemp_outcome hvs ho hdim'
+
+/-! ### views of an array of the pool: chains of view-forming operations (C01) -/
+
+/-- apply a chain of view-forming operations -/
+def applyOps (v : View) (ops : List Op) : View := ops.foldl (fun v op => op.apply v) v
+
+/-- every operation of the chain is in its domain when it is applied -/
+def OpsInDom : View → List Op → Prop
+  | _, [] => True
+  | v, op :: ops => op.InDomain v ∧ OpsInDom (op.apply v) ops
+
+/-- the documented shape and index map of the chain (composition of the operations' documented maps) -/
+def denOf (den : Den) (ops : List Op) : Den :=
+  ops.foldl (fun den op => ⟨op.specShape den.shape, den.map ∘ op.specMap den.shape⟩) den
+
+theorem reach_ops (root : View) : ∀ (ops : List Op) (v : View) (den : Den), Reach root v den → OpsInDom v ops →
+    Reach root (applyOps v ops) (denOf den ops) := by
+  intro ops
+  induction ops with
+  | nil => intro v den h _; exact h
+  | cons op ops ih =>
+    intro v den h hd
+    exact ih (op.apply v) _ (Reach.step op h hd.1) hd.2
+
+/-- **the documented value of a view of an array**: extensions = the composed shape (collapsed, as an array built from it reports
+    them), elements = the array's elements at the composed index map, in canonical order -/
+def viewVal (x : AbsArr α) (ops : List Op) : AbsArr α :=
+  ⟨collapse (denOf ⟨x.exts, id⟩ ops).shape,
+   (boxIndices (denOf ⟨x.exts, id⟩ ops).shape).map fun idx => x.elems[(rowMajor x.exts ((denOf ⟨x.exts, id⟩ ops).map idx)).toNat]?.getD none⟩
+
+/-- what C01 gives for a view of a valid array: well formed, the documented shape, every element inside the array's block, and the cells it
+    designates are the documented ones -/
+theorem view_of_array {h : Heap α} {b : Arr} (hv : Valid h b) (ops : List Op) (hd : OpsInDom b.view ops) :
+    (applyOps b.view ops).lay.WF ∧
+    (∀ idx ∈ boxIndices (applyOps b.view ops).exts,
+      0 ≤ (applyOps b.view ops).addr idx ∧ ((applyOps b.view ops).addr idx).toNat < (cellsOf h b).length) ∧
+    (nElems (applyOps b.view ops).exts ≠ 0 → b.numElements ≠ 0) ∧
+    (⟨collapse (applyOps b.view ops).exts, viewCells (cellsOf h b) (applyOps b.view ops)⟩ : AbsArr α) = viewVal (absArr h b) ops := by
+  have hreach := reach_ops b.view ops b.view ⟨b.view.exts, id⟩ Reach.root hd
+  obtain ⟨rwf, rex, raddr⟩ := C01.reachable_denotes b.view _ _ hv.view_wf hreach
+  have hden : (⟨b.view.exts, id⟩ : Den) = ⟨(absArr h b).exts, id⟩ := rfl
+  have haddr : ∀ idx, InBox (applyOps b.view ops).exts idx →
+      (applyOps b.view ops).addr idx = rowMajor b.exts ((denOf ⟨b.view.exts, id⟩ ops).map idx) ∧
+      0 ≤ rowMajor b.exts ((denOf ⟨b.view.exts, id⟩ ops).map idx) ∧
+      rowMajor b.exts ((denOf ⟨b.view.exts, id⟩ ops).map idx) < b.numElements := by
+    intro idx hidx
+    rw [rex] at hidx
+    obtain ⟨e1, e2⟩ := raddr idx hidx
+    obtain ⟨a1, a2, a3⟩ := hv.addr (idx := (denOf ⟨b.view.exts, id⟩ ops).map idx) e2
+    exact ⟨by rw [e1, a1], a2, a3⟩
+  have hclen := hv.cells_length
+  refine ⟨rwf, ?_, ?_, ?_⟩
+  · intro idx hidx
+    obtain ⟨e1, e2, e3⟩ := haddr idx ((mem_boxIndices _ _).mp hidx)
+    rw [e1, hclen]; exact ⟨e2, by omega⟩
+  · intro hn
+    have hok : ExtsOK (applyOps b.view ops).exts := wf_exts_ok rwf
+    have hlen := boxIndices_length (xs := (applyOps b.view ops).exts) hok
+    have hne : boxIndices (applyOps b.view ops).exts ≠ [] := by
+      intro e; rw [e] at hlen
+      have hnn : (0 : Int) ≤ nElems (applyOps b.view ops).exts := nElems_nonneg hok
+      simp at hlen; omega
+    obtain ⟨J, hJ⟩ := List.exists_mem_of_ne_nil _ hne
+    obtain ⟨_, e2, e3⟩ := haddr J ((mem_boxIndices _ _).mp hJ)
+    omega
+  · unfold viewVal viewCells
+    rw [← hden, ← rex]
+    congr 1
+    apply List.map_congr_left
+    intro idx hidx
+    obtain ⟨e1, _, _⟩ := haddr idx ((mem_boxIndices _ _).mp hidx)
+    rw [e1]; rfl
 
 end Own
 end Multi
